@@ -89,7 +89,9 @@ _add(
     "Static, every depth: tau(index, layers) extracted from the rule's closure at index 2k and 2k+1 (k, L, m, r symbolic)"
     " equals the unique closed form a(i)/sqrt(S(i)) whose telescoping obligations are discharged by sympy; TransformerStack"
     " wires (2i, 2i+1, 2*layers) in order (layers in a finite set), TransformerLayer pairs each tau with its branch"
-    " (term equality with a reference program), defaults and decoder forwarding.",
+    " (term equality with a reference program), defaults and decoder forwarding; a forward/__call__ the stack defines is"
+    " executed abstractly (every layer once, in order, for depths 1..13, training/eval, autograd on/off); constructor options"
+    " outside the scenarios make the verdict undecided.",
     TRUST + " Lemma of DESIGN.md C07 (telescoping) is a paper step; stack wiring evaluated for a finite set of depths.",
     AI + " with parity schemas + term equality with reference program",
 )
@@ -143,7 +145,8 @@ _add(
     " extra keys carried by identity, caller's dicts/lists unchanged, tensor lr cloned per parameter and never modified in"
     " place, stored decay == group decay / float(the stored scaled lr) (lr x wd == requested decay) or passed through."
     " Inputs include one-shot iterables, frozen parameters, falsy option values, a group mixing untagged and tagged"
-    " parameters. Bounded in the length of the lists (the earlier syntactic loop-shape rule was removed: it fired on"
+    " parameters; SGD/Adam/AdamW are run end to end (groups handed to torch carry lr x wd == requested decay, or the plain"
+    " decay when disabled). Bounded in the length of the lists (the earlier syntactic loop-shape rule was removed: it fired on"
     " behaviour-preserving refactorings).",
     TRUST + " One optimizer step multiplying parameters by (1 - lr*wd) is PyTorch optimizer semantics, not decided.",
     AIX + " on symbolic group lists",
